@@ -256,7 +256,10 @@ def h_equal(nr, nc, route, accs=ACCESSORS):
     # equal tables answer every per-ID / per-cell query identically
     claims = []
     for i, o in enumerate(a.obs_ids):
-        claims += [eq(x, y) for x, y in zip(list(A.data(o, axis='observation')), list(Bt.data(o, axis='observation')))]
+        va, vb = list(A.data(o, axis='observation')), list(Bt.data(o, axis='observation'))
+        if len(va) != len(vb) or len(va) != len(a.samp_ids):
+            fail('eq:queries-vector-length', f"{len(va)} / {len(vb)} entries for {len(a.samp_ids)} samples", **sig)
+        claims += [eq(x, y) for x, y in zip(va, vb)]
         for j, s_ in enumerate(a.samp_ids):
             claims.append(eq(A.get_value_by_ids(o, s_), Bt.get_value_by_ids(o, s_)))
     prove('eq:queries-agree', and_(*claims), **sig)
